@@ -100,6 +100,9 @@ type jDump struct {
 	HasConflicts bool        `json:"has_conflicts"`
 	States       []jState    `json:"states"`
 	Modes        []jMode     `json:"modes"`
+	anyres       bool        // harness only: actions return `any`, some of them nil (usergo.go)
+	shared       bool        // harness only: one method per (rule, arity), see usergo.go
+	typed        bool        // harness only: the user code gives every rule its own result type (usergo.go)
 }
 
 // dumpDirs asks the hook binary for the dump of each directory.
